@@ -377,7 +377,9 @@ fn run_transport(
     let mut clients_to_remove = Vec::new();
     let mut metadata = HashMap::new();
     let mut next_token = START_TOKEN;
-    let mut buffered_pmsgs = VecDeque::with_capacity(buffer_limit);
+    // Only pre-allocate for an explicit limit: "no limit" is `usize::MAX`, a capacity that
+    // `VecDeque::with_capacity` can never satisfy (it panics with "capacity overflow").
+    let mut buffered_pmsgs = buffer_size.map_or_else(VecDeque::new, VecDeque::with_capacity);
     #[cfg(metrics_verif)]
     verif::emit(verif_port, verif::Record::Start);
 
